@@ -222,7 +222,8 @@ def chain_adverbs(klong, arr):
     for i in range(1,len(arr)-1):
         o = get_adverb_fn(klong, arr[i].a, arity=arr[i].arity)
         if arr[i].arity == 1:
-            f = lambda x,f=f,o=o: o(f,x,op=arr[0].a)
+            # only the first adverb modifies the verb itself; later ones modify the derived function
+            f = lambda x,f=f,o=o,op=(arr[0].a if i == 1 else None): o(f,x,op=op)
         else:
             f = lambda x,y,f=f,o=o: o(f,x,y)
     if arr[-2].arity == 1:
